@@ -190,7 +190,7 @@ def make_jobs(tier, seed, build):
     nmax = 3 if tier == "quick" else 4
     for gname in GRAMMARS:
         g = CORPUS[gname]
-        for shape in tok.all_shapes_by_words(nmax + (1 if gname == "a4" and tier != "quick" else 0), g.decl):
+        for shape in tok.all_shapes_by_words(nmax + (1 if gname == "a4" and tier != "quick" else 0), g.decl, full_upto=3):
             if len(shape) >= 4 and ("dd" in shape or shape.count("word") > 1):
                 continue
             jobs.append({"id": "%s:%s" % (gname, ",".join(shape)), "grammar": gname, "shape": shape, "fs": "none"})
